@@ -76,7 +76,7 @@ func genCase(t *rapid.T) Case {
 	n := rapid.IntRange(3, 25).Draw(t, "n")
 	for i := 0; i < n; i++ {
 		op := Op{Client: rapid.IntRange(0, c.Clients-1).Draw(t, "client")}
-		op.Kind = rapid.SampledFrom([]string{"get", "get", "set", "set", "setbad", "settyped", "settyped", "update", "updatebad", "subscribe", "rawget", "set2", "update2", "subscribe2", "stats", "trace", "unsubscribe", "subscribe", "subscribe2", "terminate2", "stalecancel2", "unsubscribe", "brokensub", "churnsubs", "dupidsub", "sidesub", "sidesub"}).Draw(t, "kind")
+		op.Kind = rapid.SampledFrom([]string{"get", "get", "set", "set", "setbad", "settyped", "settyped", "update", "updatebad", "subscribe", "rawget", "set2", "update2", "subscribe2", "stats", "trace", "unsubscribe", "subscribe", "subscribe2", "terminate2", "stalecancel2", "unsubscribe", "brokensub", "churnsubs", "dupidsub", "sidesub", "sidesub", "slotreuse"}).Draw(t, "kind")
 		switch op.Kind {
 		case "set", "update", "set2", "update2":
 			op.Value = rapid.Int32Range(0, 1<<30).Draw(t, "v")
@@ -376,6 +376,42 @@ func checkCase(c Case) error {
 			}
 			twinGone = true
 			vt.Label("second-object-removed")
+		case "slotreuse":
+			// the whole sequence in one step: this client subscribes to the second
+			// object's property, the object is removed (the subscription is ended by
+			// the server), the client subscribes to the first object's property -
+			// whatever the dead subscription held on the connection is free to be
+			// used again - and only then is the dead subscription's cancel function
+			// called: it releases nothing which belongs to the newcomer
+			if twinGone || len(cl.subs) >= 2 {
+				continue
+			}
+			cancel2, ch2, err := cl.proxy2.SubscribeDelay()
+			if err != nil {
+				return vt.Violationf("C14:subscribe-error", "step %d: SubscribeDelay on the second object failed: %v", i, err)
+			}
+			go func() {
+				for range ch2 {
+				}
+			}()
+			if err := cl.removeTwin(); err != nil {
+				return vt.Violationf("C14:setup", "step %d: removing the second object: %v", i, err)
+			}
+			twinGone = true
+			// a call through the same connection: the end of the subscription has arrived
+			if _, err := cl.proxy.GetDelay(); err != nil {
+				return vt.Violationf("C14:get-error", "step %d: barrier GetDelay failed: %v", i, err)
+			}
+			cancel, ch, err := cl.proxy.SubscribeDelay()
+			if err != nil {
+				return vt.Violationf("C14:subscribe-error", "step %d: SubscribeDelay failed: %v", i, err)
+			}
+			ns := &subscriber{ch: ch, cancel: cancel}
+			go ns.run()
+			cl.subs = append(cl.subs, ns)
+			cancel2()
+			vt.Label("second-object-removed")
+			vt.Label("cancel-after-object-removed-and-new-subscription")
 		case "stalecancel2":
 			// cancel functions of subscriptions whose object is gone: whatever
 			// they release, it is not what others have subscribed since
